@@ -172,7 +172,8 @@ var scaleCache = map[scaleKey][2]Range{}
 // and size are divided by it. rate <= 1 means "everything was collected" (or
 // unknown): no scaling.
 func unsample(count, size, rate int64) (Range, Range) {
-	if count == 0 {
+	if count == 0 || size == 0 {
+		// no bytes: 1/(1-exp(-0)) is undefined; the converter documents 0, 0 for such a record
 		return exact(0), exact(0)
 	}
 	if rate <= 1 {
